@@ -11,6 +11,7 @@ From CG Require Import Spec.Choice.
 From CGgen Require Import Consts.
 From CG Require Import Model.Glob.
 From CG Require Import Model.BashSem.
+From CG Require Import Model.ChainTables.
 (* add new Require lines above this line *)
 Require Import ExtrOcamlBasic ExtrOcamlString.
 Extraction Language OCaml.
@@ -37,5 +38,6 @@ Separate Extraction
   BashSem.filter_lines
   BashSem.sort_desc
   BashSem.assoc_of
+  ChainTables.chain_alltables
   (* add new roots above this line *)
   Prelude.pow2.
